@@ -22,8 +22,25 @@ def run(ctx):
                         "bound": "%d candidates" % n})
     if r["violation"]:
         ctx.violation("bounded/m_names", {"inputs": r["inputs"], "observed": r["violation"]}, True)
+    # file-level names (never counted as proved): no C wrapper defined twice, no Fortran entity declared twice
+    r2 = ctx.monitor("m_names_e2e", "search", 40, ctx.seed)
+    ctx.bounded.append({"monitor": "m_names_e2e", "inputs_tried": r2["tried"], "violation": r2["violation"],
+                        "kind": "bounded: generated files of 6 libraries x 2 prefixes (overloads with fortran_generic variants, "
+                                "namespaces flattened two deep, static vs instance members, same method names in two classes, "
+                                "function and class templates, bufferify variants next to overloads): no duplicate C definition, "
+                                "Fortran procedure, type-bound name or generic specific; g++/gfortran accept",
+                        "bound": "%d libraries" % r2["tried"]})
+    if r2["violation"]:
+        ctx.violation("bounded/m_names_e2e", {"inputs": r2["inputs"], "observed": r2["violation"]}, True)
     for k in ctx.known:
-        if k["status"] == "open":
+        if k["status"] == "open" and k.get("replay"):
+            import sys as _sys, os as _os
+            _sys.path.insert(0, _os.path.join(_os.path.dirname(_os.path.dirname(_os.path.abspath(__file__))), "monitors"))
+            import m_names_e2e as _M
+            res = ctx.monitor("m_names_e2e", "replay", json.dumps(getattr(_M, k["replay"]["known"])))
+            if res.get("violation"):
+                ctx.report_known(k)
+        elif k["status"] == "open":
             w = dict(k["witness"])
             res = ctx.monitor("m_names", "replay", json.dumps(w))
             if res.get("violation"):
